@@ -158,9 +158,21 @@ package modfile
 //@   props C15
 
 //@ # ---------- helpers ----------
+//@ # a string must be quoted to stand as one go.mod token when it is empty, contains a comment opener, a space, a quote
+//@ # character or an unprintable rune, or is longer than one character and contains a bracket or comma
+//@ spec func QRUNE(r int, n int) bool =
+//@     r == 32 || r == 34 || r == 39 || r == 96
+//@     || (n > 1 && (r == 40 || r == 41 || r == 91 || r == 93 || r == 123 || r == 125 || r == 44))
+//@     || (r != 40 && r != 41 && r != 91 && r != 93 && r != 123 && r != 125 && r != 44 && !unicode.IsPrint(r))
+//@ spec func QRUNES(s string, p int) bool decreases len(s) - p =
+//@     if p >= len(s) || p < 0 then false else QRUNE(runeat(s, p), len(s)) || QRUNES(s, p + runesz(s, p))
 //@ func MustQuote
 //@   pure
-//@   trusted "character scan with unicode.IsPrint; only its purity is used here"
+//@   ensures [C15, C08] quoting_rule: result == (QRUNES(s, 0) || s == "" || strings.Contains(s, "//") || strings.Contains(s, "/*"))
+//@   loop 0:
+//@     invariant 0 <= @pos && @pos <= len(s)
+//@     invariant QRUNES(s, 0) == QRUNES(s, @pos)
+//@     decreases len(s) - @pos
 //@   props C15 C08 C16
 //@ func AutoQuote
 //@   pure
@@ -929,6 +941,8 @@ package modfile
 //@   allocates
 //@   ensures [C20] state_kept: PARSEST(in) && in.complete == old(in.complete) && in.file == old(in.file)
 //@   ensures [C20] one_statement_added: len(in.file.Stmt) == old(len(in.file.Stmt)) + 1 && (forall k int :: 0 <= k && k < old(len(in.file.Stmt)) ==> in.file.Stmt[k] == old(in.file.Stmt[k]))
+//@   # an empty block "verb ( )": both parenthesis positions are the start positions of the tokens of that kind
+//@   ensures site 2 [C20] empty_block_parens_point_at_their_tokens: tok.kind == '(' && rparen.kind == ')' && ISBLOCK(in.file.Stmt[len(in.file.Stmt)-1]) && ifaceptr(in.file.Stmt[len(in.file.Stmt)-1], "*LineBlock").LParen.Pos == tok.pos && ifaceptr(in.file.Stmt[len(in.file.Stmt)-1], "*LineBlock").RParen.Pos == rparen.pos
 //@   ensures [C20] statement_positions: (ISLINE(in.file.Stmt[len(in.file.Stmt)-1]) || ISBLOCK(in.file.Stmt[len(in.file.Stmt)-1])) && STMTPOS(in.file.Stmt[len(in.file.Stmt)-1])
 //@   ensures [C20] progress: len(in.remaining) < old(len(in.remaining)) || in.token.kind == 0 - 1
 //@   ensures forall l *Line :: !fresh(l) ==> l.Start == old(l.Start) && l.End == old(l.End)
